@@ -5,8 +5,11 @@ use std::io::{BufRead, Write};
 use std::panic::{AssertUnwindSafe, catch_unwind};
 
 mod util;
+mod svc;
+mod gen_backend;
 mod c08;
 mod c09;
+mod c12;
 mod c14;
 mod c15;
 mod c20;
@@ -41,8 +44,10 @@ fn main() {
 
 fn dispatch(suite: &str, case: &Value) -> Value {
     match suite {
+        "svc" => svc::run(case),
         "c08" => c08::run(case),
         "c09" => c09::run(case),
+        "c12" => c12::run(case),
         "c14" => c14::run(case),
         "c15" => c15::run(case),
         "c20" => c20::run(case),
